@@ -772,3 +772,47 @@ Example C14_example_reorg :
      OutHead [(2, [mkSub 7 16 0 1 1 0 true 9])];
      OutSub [[mkSubscription 7 17 2 1 true]] (Some [mkSub 7 17 2 1 1 0 true 11])].
 Proof. vm_compute. repeat split; reflexivity. Qed.
+
+(* Process start (added after seeded change C14-11; Model/C14_Start.v).  The constructor subscribes
+   the start-up epoch and the next one, each with the validators validating in THAT epoch: the
+   history of a start is the subscribe of the current epoch with the current epoch's duties followed
+   by the subscribe of the next epoch with the next epoch's duties (so theorems 5-15 give every
+   future pair of the next epoch's validators -- those activated in it included -- its subscription
+   and theorems 18/20 their aggregation jobs).  The seeded shape -- both epochs subscribed with the
+   start-up epoch's validators ([start_ops_same_accounts]) -- is refuted by a witness: validator 3,
+   activated in epoch 2, selected aggregator of committee 0 of slot 17, start at slot 13: the code's
+   history makes its job, the other one neither asks for its duty nor makes the job. *)
+
+Theorem C14_start_up_subscribes_each_epoch_with_its_own_validators :
+  forall pr cur views vE vN evs,
+    find_view (cur / spe pr) views = Some vE -> find_view (cur / spe pr + 1) views = Some vN ->
+    v_mid vE = [] -> v_mid vN = [] ->
+    expand pr rinit (start_events pr cur views ++ evs) =
+    OSub (cur / spe pr) cur (v_no_accounts vE) (v_duties_fail vE) (v_sign_fail vE) (v_duties vE) ::
+    OSub (cur / spe pr + 1) cur (v_no_accounts vN) (v_duties_fail vN) (v_sign_fail vN) (v_duties vN) ::
+    expand pr rinit evs.
+Proof.
+  intros pr cur views vE vN evs HE HN ME MN.
+  unfold start_events, start_ops, start_epochs. cbn [flat_map].
+  rewrite HE, HN. unfold start_sub. rewrite ME, MN. cbn. reflexivity.
+Qed.
+Print Assumptions C14_start_up_subscribes_each_epoch_with_its_own_validators.
+
+Theorem C14_start_up_with_start_epoch_accounts_refuted :
+  let pr := mkParams 12000 8000 8 16 in
+  let z := [0; 0; 0; 0; 0; 0; 0; 0] in
+  let d3 := mkDuty 3 17 0 10 2 5 1703 z in
+  let vE := mkView 1 false false false false [] [mkDuty 1 14 0 10 2 3 1401 z; mkDuty 2 15 1 10 2 4 1502 z] [] in
+  let vN := mkView 2 false false false false [] [mkDuty 1 18 1 10 2 3 1801 z; mkDuty 2 19 0 10 2 4 1902 z; d3] [] in
+  let att := OAtt 17 17 false [] [mkAtt 17 0 1700] in
+  selected 16 d3 = true /\
+  st_jobs (fst (run pr init (expand pr rinit (start_events pr 13 [vE; vN] ++ [EOp (HOp att)])))) =
+    [mkJob 17 0 212000 17 1700 3 1703] /\
+  st_jobs (fst (run pr init (start_ops_same_accounts pr 13 [vE; vN] ++ [att]))) = [] /\
+  (forall o, In o (start_ops_same_accounts pr 13 [vE; vN]) ->
+     match o with OSub _ _ _ _ _ ds => ~ In d3 ds | _ => True end).
+Proof.
+  vm_compute. repeat split; try reflexivity.
+  intros o [H|[H|[]]]; subst o; intros [H|[H|[]]]; discriminate H.
+Qed.
+Print Assumptions C14_start_up_with_start_epoch_accounts_refuted.
